@@ -98,6 +98,14 @@ func c09(p *Pkg, _ *Pkg, payload json.RawMessage, res *Result) {
 	var ran bool
 	var rawSeen []byte
 	resp := DefaultResponse(op)
+	// the other operations of the package answer too, so that a request sent to the wrong one shows as such
+	var wrongOp *Op
+	for _, other := range api.Ops {
+		if other != op {
+			or := DefaultResponse(other)
+			api.Install(other, func(o *Op, ctx context.Context, req reflect.Value) reflect.Value { wrongOp = o; return or })
+		}
+	}
 	api.Install(op, func(op *Op, ctx context.Context, req reflect.Value) reflect.Value {
 		ran = true
 		parsed, perr = Parse(op, req)
@@ -224,7 +232,7 @@ func c09(p *Pkg, _ *Pkg, payload json.RawMessage, res *Result) {
 			}
 		}
 		in := showVal(v)
-		ran, parsed, perr, rawSeen = false, reflect.Value{}, nil, nil
+		ran, parsed, perr, rawSeen, wrongOp = false, reflect.Value{}, nil, nil, nil
 		rt.last = nil
 		var out []reflect.Value
 		pn := Catch(func() { out = meth.Call([]reflect.Value{reflect.ValueOf(context.Background()), v}) })
@@ -245,6 +253,11 @@ func c09(p *Pkg, _ *Pkg, payload json.RawMessage, res *Result) {
 			wire = rt.last.Method + " " + rt.last.URL.RequestURI() + " " + fmt.Sprint(rt.last.Header)
 		}
 		if !ran {
+			if wrongOp != nil {
+				bad("dispatched-to-another-operation", "", "the server dispatched "+wire+" to "+wrongOp.Method+" "+wrongOp.Path, "the operation the client method belongs to ("+pl.Method+" "+pl.Template+")")
+				wrongOp = nil
+				continue
+			}
 			bad("not-dispatched", "", "the server did not dispatch "+wire, "handler runs")
 			continue
 		}
